@@ -52,29 +52,33 @@ Fixpoint jtree_eqb (a b : jtree) {struct a} : bool :=
 Definition ojtree_eqb (a b : option jtree) : bool :=
   match a, b with Some x, Some y => jtree_eqb x y | None, None => true | _, _ => false end.
 
-(* encode case: the value, the tree of the text json_encode returned, and what json_decode made of
-   that text in both modes (None = NULL) *)
-Record jecase := { je_v : pval; je_tree : jtree; je_back : option pval; je_back_assoc : option pval }.
+(* encode case: the value, the tree of the text json_encode returned (None = it returned false),
+   and what json_decode made of that text in both modes (None = NULL) *)
+Record jecase := { je_v : pval; je_tree : option jtree; je_back : option pval; je_back_assoc : option pval }.
 (* failing clauses:
-   1 model json_encode <> implementation (tree of its output)
+   1 model json_encode <> implementation (tree of its output / false)
    2 model json_decode(default) of that tree <> implementation      3 same, assoc mode
-   4 implementation's tree <> reference encoding of the value       [encoder faithful]
+   4 implementation's output <> reference encoding of the value     [encoder faithful]
    5 default-mode decode of it <> the value                         [decoder inverts encoder]
    6 assoc-mode decode of it <> the value *)
 Definition null_as_none (o : option pval) : option pval :=
   match o with Some PNull => None | x => x end.
 Definition check_jenc (c : jecase) : list nat :=
   let ib := fun _ : Z => 0 in
-  (if jtree_eqb (json_encode ib (je_v c)) (je_tree c) then [] else [1%nat]) ++
-  (if opval_eqb (null_as_none (json_decode false (je_tree c))) (null_as_none (je_back c)) then [] else [2%nat]) ++
-  (if opval_eqb (null_as_none (json_decode true (je_tree c))) (null_as_none (je_back_assoc c)) then [] else [3%nat]) ++
-  (if ojtree_eqb (spec_to_json ib (je_v c)) (Some (je_tree c)) then [] else [4%nat]) ++
-  (if opval_eqb (null_as_none (je_back c)) (null_as_none (Some (view false (je_v c)))) then [] else [5%nat]) ++
-  (if opval_eqb (null_as_none (je_back_assoc c)) (null_as_none (Some (view true (je_v c)))) then [] else [6%nat]).
+  (if ojtree_eqb (json_encode ib (je_v c)) (je_tree c) then [] else [1%nat]) ++
+  (if ojtree_eqb (spec_to_json ib (je_v c)) (je_tree c) then [] else [4%nat]) ++
+  match je_tree c with
+  | None => []
+  | Some t =>
+    (if opval_eqb (null_as_none (json_decode false 512 t)) (null_as_none (je_back c)) then [] else [2%nat]) ++
+    (if opval_eqb (null_as_none (json_decode true 512 t)) (null_as_none (je_back_assoc c)) then [] else [3%nat]) ++
+    (if opval_eqb (null_as_none (je_back c)) (null_as_none (Some (view false (je_v c)))) then [] else [5%nat]) ++
+    (if opval_eqb (null_as_none (je_back_assoc c)) (null_as_none (Some (view true (je_v c)))) then [] else [6%nat])
+  end.
 
-(* decode case: the tree of a well-formed input text, the mode, the result (None = NULL) *)
-Record jdcase := { jd_tree : jtree; jd_assoc : bool; jd_obs : option pval }.
+(* decode case: the tree of a well-formed input text, the mode, the depth argument, the result *)
+Record jdcase := { jd_tree : jtree; jd_assoc : bool; jd_depth : Z; jd_obs : option pval }.
 (* 1 model <> implementation      2 reference reading <> implementation *)
 Definition check_jdec (c : jdcase) : list nat :=
-  (if opval_eqb (null_as_none (json_decode (jd_assoc c) (jd_tree c))) (null_as_none (jd_obs c)) then [] else [1%nat]) ++
-  (if opval_eqb (null_as_none (Some (spec_of_json (jd_assoc c) (jd_tree c)))) (null_as_none (jd_obs c)) then [] else [2%nat]).
+  (if opval_eqb (null_as_none (json_decode (jd_assoc c) (jd_depth c) (jd_tree c))) (null_as_none (jd_obs c)) then [] else [1%nat]) ++
+  (if opval_eqb (null_as_none (spec_decode (jd_assoc c) (jd_depth c) (jd_tree c))) (null_as_none (jd_obs c)) then [] else [2%nat]).
